@@ -236,6 +236,8 @@ RetS(kind, hasOut, out, hasErr, err, textOk, strict) ==
           \cup V(limit >= 0 => kind # "panic", "C03_limited_read_panics")
           \cup V(dl # NoTime => kind # "panic", "C04_timed_read_panics")
           \cup V(textOk, "C02_text_is_lossy_decoding_of_the_bytes")
+          \* (the text-returning variant under a size limit: each piece is the decoding of exactly the bytes of that piece)
+          \cup V(limit >= 0 => textOk, "C03_text_pieces_exact")
           \cup V(kind # "panic" => \A o \in Outs : has[o] = (o \in piped), "C02_absent_iff_not_piped")
           \cup V(\A o \in Outs : IsPrefixOf(nd[o], written[o]), "C02_out_exact")
           \* C04: the same under a time limit, across timed-out and resumed reads
